@@ -3,6 +3,8 @@
 package motion
 
 import (
+	"sync/atomic"
+	"time"
 	"fmt"
 	"testing"
 
@@ -127,6 +129,7 @@ func vfRunC19(c vfC19Case) *kit.Result {
 		cur := fl.Current()
 		cur.Pix[0][0] = uint16(pend)
 		cur.Pix[1][1] = uint16(pend)
+		cur.Status.TimeOn = time.Duration((pend*7919)%1000) * time.Millisecond // camera uptimes in no particular order
 		pendValid = true
 		n := len(m.written)
 		at := func(pos int) int {
@@ -192,6 +195,8 @@ func vfRunC19(c vfC19Case) *kit.Result {
 			cur := fl.Current()
 			cur.Pix[0][0] = uint16(pend)
 			cur.Pix[1][1] = uint16(pend)
+			cur.Status.TimeOn = time.Duration((pend*7919)%1000) * time.Millisecond
+		cur.Status.TimeOn = time.Duration((pend*7919)%1000) * time.Millisecond // camera uptimes in no particular order
 		}
 		// the pending frame (written by the last query, or just now) is the one moved past
 		m.written = append(m.written, vfTag(fl.Current()))
@@ -325,4 +330,62 @@ func TestVF_C19_Exhaustive(t *testing.T) {
 
 func FuzzVF_C19(f *testing.F) {
 	kit.DriveFuzz(f, "C19", "FuzzVF_C19", "native coverage-guided fuzzing (go test -fuzz) of the byte stream behind the generator of TestVF_C19, same oracle", vfGenC19, vfRunC19)
+}
+
+
+// TestVF_C19_Concurrent: a snapshot goroutine calls CopyRecent while the producer keeps writing the current slot
+// and moving on, on a two-slot ring of large frames (a copy takes a millisecond or so). Every frame is filled
+// with a single value; what CopyRecent returns must be one whole frame.
+func TestVF_C19_Concurrent(t *testing.T) {
+	s := kit.Begin("C19", "TestVF_C19_Concurrent", "a producer fills the current slot of a 2-slot ring of 1024x1024 frames with one value per frame and moves on, 300 times, while a second goroutine calls CopyRecent in a loop; every copy must hold a single value throughout (the frame before the current one at some instant of the call). Every copy taken while the producer was running counts as non-trivial.")
+	defer s.End()
+	cam := vfCam{1024, 1024, 9}
+	fl := NewFrameLoop(2, cam)
+	var stop int32
+	type res struct {
+		copies int
+		msg    string
+	}
+	done := make(chan res, 1)
+	go func() {
+		out := res{}
+		for atomic.LoadInt32(&stop) == 0 {
+			f := fl.CopyRecent()
+			out.copies++
+			v := f.Pix[0][0]
+			for y := 0; y < len(f.Pix) && out.msg == ""; y += 7 {
+				for x := 0; x < len(f.Pix[y]); x += 5 {
+					if f.Pix[y][x] != v {
+						out.msg = fmt.Sprintf("CopyRecent returned a mixture of frames: pixel (0,0)=%d but (%d,%d)=%d", v, x, y, f.Pix[y][x])
+						break
+					}
+				}
+			}
+			if out.msg != "" {
+				break
+			}
+		}
+		done <- out
+	}()
+	for k := 1; k <= 300; k++ {
+		cur := fl.Current()
+		for y := len(cur.Pix) - 1; y >= 0; y-- {
+			row := cur.Pix[y]
+			for x := range row {
+				row[x] = uint16(k)
+			}
+		}
+		fl.Move()
+	}
+	atomic.StoreInt32(&stop, 1)
+	out := <-done
+	r := &kit.Result{NT: true}
+	s.AddCounts(out.copies, out.copies)
+	if out.msg != "" {
+		r.Err = out.msg
+		s.Record(map[string]int{"copies": out.copies}, r)
+		s.Fail(map[string]int{"copies": out.copies}, out.msg)
+		t.Fatalf("C19 violated: %s", out.msg)
+	}
+	s.Record(map[string]int{"copies": out.copies}, r)
 }
